@@ -120,22 +120,37 @@ def select(fx, q, nparams=None, pick=None, enclosing=None, ptypes=None):
     return fns
 
 
-def summarise(f, unroll=1):
+def summarise(f, unroll=1, known=None):
     cn = Canon(f, uniform=True, noinline=True)
-    conds, nodes = PS.event_conditions(cn, f.body, events_of=events, unroll=unroll, drop=_drop_noise, versioned=True, cond_events=True)
+    conds, nodes = PS.event_conditions(cn, f.body, events_of=events, unroll=unroll, drop=_drop_noise, versioned=True,
+                                       cond_events=True, known=known)
+    if known is not None:
+        # the call of a looked-through helper is not an event of its own
+        import re as _re
+        conds = {k: v for k, v in conds.items()
+                 if not (k[0] == "call" and _re.match(r"(\w+)\(", k[1]) and _re.match(r"(\w+)\(", k[1]).group(1) not in known
+                         and _looked_through(f, _re.match(r"(\w+)\(", k[1]).group(1)))}
     # `continue` is control flow inside one iteration: what it skips shows in the conditions of the other events
     # the same holds for `break` (the loop condition of the next round sees it) and for a bare `return;` of a void
     # function (falling off the end is the same exit)
     conds = {k: v for k, v in conds.items() if k[0] not in ("continue", "break") and k != ("return", "")}
     inits = []
     for i in f.o.get("inits", ()):
-        if i.get("member") and i.get("init") is not None and i.get("written"):
+        if i.get("member") and i.get("init") is not None and (i.get("written") or i.get("inclass")):
             inits.append(("init", "%s(%s)" % (i["member"], cn.c(i["init"]))))
         elif (i.get("base") or i.get("delegating")) and i.get("init") is not None and i.get("written"):
             inits.append(("init", "%s %s" % ("base" if i.get("base") else "delegate", cn.c(i["init"]))))
     for k in inits:
         conds[k] = {frozenset()}
     return conds, nodes
+
+
+def _looked_through(f, name):
+    """`name` is a member function of f's own class with a body (pathsig inlines exactly those)."""
+    for g in f.facts.fns:
+        if g.o.get("n") == name and g.o.get("parent") == f.o.get("parent") and g.body is not None and not g.is_pattern:
+            return True
+    return False
 
 
 def to_json(conds):
@@ -150,7 +165,7 @@ def path_for(name):
     return os.path.join(GOLDEN_DIR, name + ".json")
 
 
-def check(chk, fx, rule, name):
+def check(chk, fx, rule, name, optional=False):
     """Compare the function(s) registered under `name` with the frozen summary."""
     p = path_for(name)
     if not os.path.exists(p):
@@ -160,13 +175,27 @@ def check(chk, fx, rule, name):
     if g.get("param0_contains"):
         fns = [f for f in fns if g["param0_contains"] in f.facts.T(f.o["params"][0]["t"])]
     if not fns:
+        if optional and any(True for _ in fx.fns(g["function"], patterns=True, insts=False)):
+            # a primitive that still exists but is not used by any witness instantiation of this tree: nothing can
+            # depend on it here
+            chk.note("%s: %s is not instantiated in this tree (unused): not compared" % (rule, g["function"]))
+            return None
         chk.incomplete("%s: function %s not found / not instantiated" % (rule, g["function"]))
     f = fns[0]
+    ref = from_json(g["events"])
+    # helpers that the reference does not know (a maintainer moved part of the function into a private member) are
+    # looked through: their events count as the function's own
+    import re as _re
+    known = set(g.get("callees", ()))
+    for (k, t), d in ref.items():
+        known.update(_re.findall(r"(\w+)\(", t))
+        for conj in d:
+            for a, _p in conj:
+                known.update(_re.findall(r"(\w+)\(", a))
     try:
-        conds, nodes = summarise(f, g.get("unroll", 1))
+        conds, nodes = summarise(f, g.get("unroll", 1), known)
     except AnalysisIncomplete:
         raise
-    ref = from_json(g["events"])
     # reassigned locals are numbered by declaration order: undo a shift of the numbering
     from .canon import best_renaming, rename_text
     texts = lambda cs: {k[1] for k in cs} | {a for d in cs.values() for conj in d for a, _ in conj}
@@ -192,7 +221,9 @@ def freeze(fx, name, q, contract, nparams=None, param0_contains=None, enclosing=
         raise AnalysisIncomplete("cannot freeze %s: %s not found" % (name, q))
     conds, _ = summarise(fns[0], unroll)
     os.makedirs(GOLDEN_DIR, exist_ok=True)
-    d = {"function": q, "contract": contract, "events": to_json(conds)}
+    callees = sorted({(n.get("callee") or {}).get("n") for n in walk(fns[0].body)
+                      if n.get("k") in ("CallExpr", "CXXMemberCallExpr") and (n.get("callee") or {}).get("f") == "ctpg"} - {None})
+    d = {"function": q, "contract": contract, "events": to_json(conds), "callees": callees}
     if unroll != 1:
         d["unroll"] = unroll
     if ptypes:
@@ -207,8 +238,9 @@ def freeze(fx, name, q, contract, nparams=None, param0_contains=None, enclosing=
     return len(conds)
 
 
-def group(chk, fx, rule, what, names):
-    """Check every reference summary of a group under one rule id."""
-    chk.rule(rule, what, len(names))
+def group(chk, fx, rule, what, names, optional=False):
+    """Check every reference summary of a group under one rule id. optional: members that are not instantiated in this
+    tree (unused primitives) are skipped; at least half of the group must still be comparable."""
+    chk.rule(rule, what, (len(names) + 1) // 2 if optional else len(names))
     for n in names:
-        check(chk, fx, rule, n)
+        check(chk, fx, rule, n, optional)
